@@ -621,6 +621,24 @@ def r6_longest_prefix_first(ctx, rep, R='C14.R6'):
         last_store = [s for s in stores if s not in sorts]
         ok = all(any(x in g.reach([s]) for x in sorts) for s in last_store) and \
             not any(s in g.reach([x]) for x in sorts for s in last_store)
+    # every "first matching search path wins" loop of discovery reads that sorted list: a loop that
+    # leaves with ``break`` on the first entry whose path is a prefix of a directory / file must
+    # iterate options.prefix -- options.test_path is in command-line order (plain paths before
+    # package paths), so with nested search paths the outer one would win
+    fm = ctx.model.module('find')
+    for f2 in fm.functions.values():
+        for lp in [x for x in ast.walk(f2.node) if isinstance(x, ast.For)]:
+            has_break = any(isinstance(y, ast.Break) for st in lp.body for y in ast.walk(st)
+                            if not isinstance(st, (ast.For, ast.While)) or True)
+            tests_prefix = any(isinstance(y, ast.Call) and isinstance(y.func, ast.Attribute) and
+                               y.func.attr == 'startswith' for y in ast.walk(lp))
+            src = dotted(lp.iter) or ''
+            if has_break and tests_prefix and src.startswith('options.') and isinstance(lp.target, ast.Tuple):
+                rep.check(src == 'options.prefix', R, '%s: first-match loop over the search paths reads options.prefix' % f2.qualname,
+                          '%s picks the first entry of %s whose path is a prefix: that list is not sorted '
+                          'longest first, so with nested search paths (a --package-path inside a --test-path) '
+                          'the outer path wins and the file gets the wrong package / dotted name' % (f2.qualname, src),
+                          key='first-match:' + f2.qualname, func=f2.qualname, where=ctx.where(f2, lp))
     rep.check(ok, R, 'get_options: options.prefix sorted by len(path) descending after it is built',
               'the prefixes are not sorted longest first: with nested source roots a module would '
               'get the wrong dotted name', key='prefix-sort', func=fi.qualname, where=ctx.where(fi, fi.node))
